@@ -1,5 +1,5 @@
 """C14 -- runs end normally and stop exactly at the requested horizon or count."""
-from ..sysprop import system_subcheck
+from ..sysprop import system_subcheck, fuzz_subcheck
 from ..monitors.conservation import Conservation
 from ..monitors.horizon import Horizon
 from .. import strategies as S
@@ -33,6 +33,7 @@ def classes(a, spec, res):
 def subchecks(tier):
     prof = common.full_profile(allowed=common.FULL + ["exact", "deadlock"], horizon=(0.25, 14.0))
     prof.weights.update({"exact": 0.12, "deadlock": 0.1, "tracker": 0.3})
-    return [system_subcheck("lattice", prof, lambda spec: [Horizon()], nontrivial, classes=classes,
+    base = system_subcheck("lattice", prof, lambda spec: [Horizon()], nontrivial, classes=classes,
                             n={"quick": 9600, "thorough": 60000}, abort_is_violation="C14",
-                            rule="full lattice incl. exact/trackers/deadlock detector; horizon + count monitor")]
+                            rule="full lattice incl. exact/trackers/deadlock detector; horizon + count monitor")
+    return [base, fuzz_subcheck(base, tier)]
